@@ -1,31 +1,56 @@
-(* C08 on the model regenerated from the source (checked arithmetic; Panic = any trap) *)
+(* C08 on the model regenerated from the source (checked arithmetic; Panic = any trap).
+   Self-contained: nothing here depends on the proofs of other properties, so that a change which
+   breaks, say, resynchronisation without introducing a panic does not disturb this file. *)
 From Coq Require Import NArith Bool List String.
-From PK Require Import Base.Outcome Base.Finite Base.Machine Gen.All Impl Spec.Frame Spec.Event
-  Syn.Ps2 Syn.Set1 Syn.Set2 Syn.Lay Syn.Preds Syn.Ev Check.Scan Check.Ps2M Check.C06 Check.C07 Check.Lay Check.Ev Check.C08.
-From PK Require Props.C06 Props.C07_set1 Props.C07_set2 Props.C04 Props.C18.
+From PK Require Import Base.Outcome Base.Ctl Base.Finite Base.Machine Gen.All Impl Spec.Frame Spec.Event
+  Syn.Ps2 Syn.Set1 Syn.Set2 Syn.Lay Syn.Preds Syn.Ev Check.Scan Check.Ps2M Check.C07 Check.Lay Check.Ev Check.C08.
 Import ListNotations.
 Local Open Scope N_scope.
 
 (* every byte to either scancode decoder, after any history (so the unimplemented!() arm of Set 1 and
    the three Set 2-only states are unreachable for it) *)
+Lemma inv1 : inv_C07 syn_set1 (ScancodeSet1_mk DecodeState_Start) = true. Proof. vm_compute. reflexivity. Qed.
+Lemma inv2 : inv_C07 syn_set2 (ScancodeSet2_mk DecodeState_Start) = true. Proof. vm_compute. reflexivity. Qed.
 Theorem C08_set1 : forall bs, Forall byte bs ->
   exists s' os, run (scan_machine syn_set1) (ScancodeSet1_mk DecodeState_Start) bs = Ret (s', os).
-Proof. exact (C08_scancodes syn_set1 _ _ Props.C07_set1.inv). Qed.
+Proof. exact (C08_scancodes syn_set1 _ _ inv1). Qed.
 Theorem C08_set2 : forall bs, Forall byte bs ->
   exists s' os, run (scan_machine syn_set2) (ScancodeSet2_mk DecodeState_Start) bs = Ret (s', os).
-Proof. exact (C08_scancodes syn_set2 _ _ Props.C07_set2.inv). Qed.
+Proof. exact (C08_scancodes syn_set2 _ _ inv2). Qed.
 
 (* every bit and clear, in every reachable state of the frame decoder: the counter never exceeds 10, so
    `num_bits += 1` and `<< num_bits` stay in range *)
-Theorem C08_bits : forall ops : list bit_op, outs (ps2_machine syn_ps2) (Ps2Decoder_mk 0 0) ops <> Panic.
-Proof. intros ops. exact (proj2 (Props.C06.C06 ops)). Qed.
+Lemma inv_bits : inv_ps2 syn_ps2 (Ps2Decoder_mk 0 0) = true. Proof. vm_compute. reflexivity. Qed.
+Theorem C08_bits : forall ops : list bit_op,
+  exists s' os, run (ps2_machine syn_ps2) (Ps2Decoder_mk 0 0) ops = Ret (s', os).
+Proof. exact (C08_bitops syn_ps2 _ inv_bits). Qed.
 
 Lemma words_ok : panicking_words syn_ps2 (Ps2Decoder_mk 0 0) = []. Proof. vm_compute. reflexivity. Qed.
 Theorem C08_word : forall s w, w < 65536 -> ps_add_word syn_ps2 s w <> Panic.
 Proof. exact (C08_words syn_ps2 (Ps2Decoder_mk 0 0) (fun s w => eq_refl) words_ok). Qed.
 
-(* every key event (and mode / layout change) to the event decoder, for every layout that does not panic *)
-Definition C08_events := Props.C04.C04_total.
+(* every key event, mode change and layout change to the event decoder, for EVERY layout that does not
+   panic itself - symbolic, the layout function stays universally quantified *)
+Section AnyLayout.
+  Context {L : Type} (f : L -> KeyCode -> Modifiers -> HandleControl -> outcome DecodedKey).
+  Hypothesis Hf : forall l k m hc, f l k m hc <> Panic.
+  Theorem C08_process : forall (d : EventDecoder L) ev, EventDecoder_process_keyevent f d ev <> Panic.
+  Proof.
+    intros [hc m lay] [k s].
+    destruct k, s; try discriminate;
+      cbv [EventDecoder_process_keyevent run_mut cbind cget cput cret call call_mut
+           EventDecoder_modifiers EventDecoder_handle_ctrl EventDecoder_layout EventDecoder_set_modifiers];
+      try (pose proof (Hf lay) as Hl; match goal with |- context [f lay ?k m hc] => specialize (Hl k m hc); destruct (f lay k m hc) end;
+           [discriminate | congruence]);
+      destruct m as [? ? ? ? ? ? ? ? []]; discriminate.
+  Qed.
+  Theorem C08_set_ctrl_handling : forall (d : EventDecoder L) hc, EventDecoder_set_ctrl_handling f d hc <> Panic.
+  Proof. intros [hc0 m lay] hc. discriminate. Qed.
+  Theorem C08_change_layout : forall (d : EventDecoder L) l, EventDecoder_change_layout f d l <> Panic.
+  Proof. intros [hc0 m lay] l. discriminate. Qed.
+  Theorem C08_new : forall l hc, EventDecoder_new f l hc <> Panic.
+  Proof. discriminate. Qed.
+End AnyLayout.
 
 (* every key, modifier set and mode to every layout, through all three forms; results are valid scalars *)
 Lemma lay_ok : ok_lay_C08 syn_lay = true. Proof. vm_compute. reflexivity. Qed.
@@ -43,6 +68,6 @@ Print Assumptions C08_set1.
 Print Assumptions C08_set2.
 Print Assumptions C08_bits.
 Print Assumptions C08_word.
-Print Assumptions C08_events.
+Print Assumptions C08_process.
 Print Assumptions C08_layouts_.
 Eval vm_compute in ("evaluations"%string, (3 * 10 * 124 * 512 * 2 + 65536 + 9 * 256 + 3 * 2047)%N).
